@@ -561,6 +561,8 @@ def build_case(cid, beh, rng, consts, fresh=0, big=None, origin="", opts=None):
         if nalt > 1:
             L.append(f"      for (int alt = 0; alt < {nalt}; ++alt) {{ h.expect_alt([&] {{ return ora(alt); }}); }}")
         L.append(f"      h.three_pass({names});")
+        if (cid * 5 + si) % 4 == 0:
+            L.append("      h.history();     // a failed earlier call (size pass done, copy threw) precedes this statement")
         L.append(f"      h.log_begin({'sizeof(quill::LogLevel)' if dyn else '0'});")
         if fam == "dyn":
             L.append(f"      LOG_DYNAMIC(h.logger, quill::LogLevel::{rng.choice(DYN_LEVELS)}, {json.dumps(call_fmt)}, {names});")
